@@ -35,8 +35,8 @@ Lemma sat_eq_random2_example :
   fl_errors_fail ex3_flat = false /\ (exists b, compile ex3_flat = COk b) /\
   length (keys_of ex3_flat) = 96 /\ length (accepted_keys ex3_flat) = 32.
 Proof.
-  split; [vm_compute; reflexivity|]. split; [vm_compute; reflexivity|]. split; [vm_compute; reflexivity|].
-  split; [apply enumerates_b_spec; vm_compute; reflexivity|].
-  split; [vm_compute; lia|]. split; [reflexivity|]. split; [|split; vm_compute; reflexivity].
+  split; [vm_compute; reflexivity|]. split; [exact ex3_frag2|]. split; [exact ex3_frag1|].
+  split; [apply enumerates_b_spec; exact ex3_enum|].
+  split; [vm_compute; lia|]. split; [reflexivity|]. split; [|split; [exact ex3_nkeys | exact ex3_nacc]].
   apply compile_total_f1; [vm_compute; reflexivity|vm_compute; lia].
 Qed.
